@@ -18,6 +18,8 @@ extern crate rustc_interface;
 extern crate rustc_middle;
 extern crate rustc_session;
 extern crate rustc_span;
+extern crate rustc_infer;
+extern crate rustc_trait_selection;
 
 mod hir_dump;
 mod json;
